@@ -9,6 +9,9 @@ The source code is distributed under BSD license, see the file License.txt
 at the top-level directory.
 */
 #include "slu_mt_ddefs.h"
+#ifdef SLU_MT_VERIF
+#include "slu_mt_verif.h"
+#endif /* SLU_MT_VERIF */
 
 void
 pxgstrf_scheduler(const int_t pnum, const int_t n, const int_t *etree, 
@@ -231,6 +234,15 @@ pxgstrf_scheduler(const int_t pnum, const int_t n, const int_t *etree,
 		   pnum, jcol, *bcol, STATE( *bcol ));
 #endif
 	    while ( STATE( *bcol ) == DONE ) *bcol = DADPANEL (*bcol);
+#ifdef SLU_MT_VERIF
+	    {   /* tell TSan that DONE panels on the climbed path were acquired */
+		int_t sluv_b = fb_cols[jcol];
+		while ( sluv_b != *bcol ) {
+		    SLUV_TSAN_ACQUIRE(&pxgstrf_shared->pan_status[sluv_b]);
+		    sluv_b = DADPANEL (sluv_b);
+		}
+	    }
+#endif /* SLU_MT_VERIF */
 	    fb_cols[dad] = *bcol;
 	
 	} /* else regular_panel */
@@ -238,6 +250,11 @@ pxgstrf_scheduler(const int_t pnum, const int_t n, const int_t *etree,
     } /* if jcol != empty */
 
     *cur_pan = jcol;
+#ifdef SLU_MT_VERIF
+    SLUV_EVENT(SLUV_E_SCHED, pnum, jcol, (jcol != EMPTY ? *bcol : EMPTY),
+	       pxgstrf_shared->tasks_remain, taskq->head,
+	       ((long)taskq->count << 32) | (long)(taskq->tail & 0x7fffffff));
+#endif /* SLU_MT_VERIF */
 
 #if ( DEBUGlevel>=1 )
     printf("(%d) Exit C.S. tasks_remain %d, cur_pan %d\n", 
